@@ -97,6 +97,14 @@ func c06Gen(rt *rapid.T) wProg {
 					wOp{K: "sub", S: hs, T: "g0", A: "JRWPASD"},
 					wOp{K: "set", S: hs, T: "g0", A: "given", U: 0, B: gPick(rt, []string{"JRWPASD", "JRWPAS", "JRWP", "N", "RWPASDO"}, "demote")})
 			}
+		case x < 8:
+			// an heir who was offered ownership (not yet accepted, or accepted) hands O on to a third user
+			heir := gInt(rt, 1, 2, "heir")
+			third := 3 - heir
+			if hs := sessOfUser(heir); hs > 0 {
+				p.Ops = append(p.Ops, wOp{K: "set", S: 0, T: "g0", A: "given", U: heir, B: "JRWPASDO"}, wOp{K: "sub", S: hs, T: "g0", A: gPick(rt, []string{"JRWPASD", "JRWPASD", "JRWPASDO"}, "hw")},
+					wOp{K: "set", S: hs, T: "g0", A: "given", U: third, B: gPick(rt, []string{"JRWPASDO", "O", "JRWPSO"}, "onward")})
+			}
 		case x < 13:
 			// ownership transfer attempt: grant by the (original) owner, optionally accepted
 			tgt := gInt(rt, 1, 2, "heir")
